@@ -140,7 +140,19 @@ def build_pts(case, variant, dt):
                 gin = np.linalg.inv(gmat).T if "transform_in" in kw else np.eye(d * d)
                 gout = gmat.T if "transform_out" in kw else np.eye(d * d)
                 t = np.einsum("iy,pfyx,xo->pfio", gin, t, gout)
-            pt.set_mpo_tensor(r, t)
+            if variant.get("buffer"):
+                # the caller fills one work buffer per shape again and again (complex128, as the process tensor stores it)
+                key = t.shape
+                bufs = variant.setdefault("_buffers", {})
+                if key not in bufs:
+                    bufs[key] = np.zeros(key, dtype=complex)
+                bufs[key][...] = t
+                pt.set_mpo_tensor(r, bufs[key])
+            else:
+                pt.set_mpo_tensor(r, t)
+        if variant.get("buffer"):
+            for b_ in variant.get("_buffers", {}).values():
+                b_[...] = np.nan                       # ... and leaves garbage in it afterwards
         if variant.get("caps", "computed") == "computed":
             pt.compute_caps()
         elif variant.get("caps") == "none":
@@ -307,12 +319,24 @@ def run_case(job):
                                    start_time=start + variant["reused"] * dt, progress_type="silent", **kw)
         dyn = oqupy.compute_dynamics(system, initial_state=rho0,
                                      process_tensor=pts if pts else None,
-                                     control=ctrl, start_time=start, progress_type="silent", **kw)
+                                     control=ctrl, start_time=start, progress_type="silent",
+                                     record_all=not variant.get("final_only", False), **kw)
     except Exception as ex:  # pylint: disable=broad-except
         import traceback
         return [{"what": "exception", "detail": "%s: %s" % (type(ex).__name__, str(ex)[:200]),
                  "tb": traceback.format_exc()[-400:]}]
     states = np.array(dyn.states)
+    if variant.get("final_only"):
+        # only the final state is recorded: it is the last state of the full record, under the final time
+        if len(states) != 1:
+            return [{"what": "length", "expected": 1, "observed": len(states)}]
+        want = expected_state(case["recs"][-1], rho0, d, m)
+        err = np.max(np.abs(states[0] - want))
+        if not err < TOL * max(1.0, np.max(np.abs(want))):
+            return [{"what": "state", "step": n, "err": float(err), "final_only": True}]
+        if abs(dyn.times[0] - (start + n * dt)) > 1e-12:
+            return [{"what": "time", "step": n, "final_only": True}]
+        return []
     seen = getattr(system, "start_times", None) or []
     if any(abs(x - start) > 1e-12 for x in seen[-1:]):
         # a time-dependent system would be sampled at the wrong times
